@@ -34,6 +34,88 @@ theorem C11_needsUpdate_iff (s : State) (st : Strategy) (e : Entity) (cfg : V1.C
       simp <;> (try (cases e.art.cert <;> simp)) <;> (try (cases e.meta_.lastConfigHash <;> simp)) <;> (try ac_rfl)
   · simp
 
+/-! ### the plan over the whole forest -/
+
+/-- the statement's recursion over the parent-first order: an entity is planned iff its issuer was planned
+    earlier in this run or `needsUpdate` (the decision table above) says so; `none` = planning fails -/
+def planSpec (s : State) (st : Strategy) (hashOf : V1.CertificateContent → Der.Bytes) (now : Int) :
+    List String → List String → Option (List String)
+  | [], _ => some []
+  | a :: rest, upd =>
+    match validateAndMerge s a with
+    | .error _ => none
+    | .ok cfg =>
+      match s.find a with
+      | none => none
+      | some e =>
+        if planDecision s st hashOf now upd e cfg then (planSpec s st hashOf now rest (upd ++ [cfg.alias_])).map (a :: ·)
+        else planSpec s st hashOf now rest upd
+
+theorem foldl_planStep_error (s : State) (st : Strategy) (hashOf now) (e : String) :
+    ∀ order : List String, order.foldl (planStep s st hashOf now) (.error e) = .error e
+  | [] => rfl
+  | _ :: rest => by simp only [List.foldl_cons, planStep]; exact foldl_planStep_error s st hashOf now e rest
+
+theorem foldl_planStep_spec (s : State) (st : Strategy) (hashOf now) :
+    ∀ (order : List String) (acc acc' : PlanAcc),
+      order.foldl (planStep s st hashOf now) (.ok acc) = .ok acc' →
+      ∃ newChanges, acc'.changes = acc.changes ++ newChanges ∧
+        planSpec s st hashOf now order acc.updated = some (newChanges.map (·.alias_))
+  | [], acc, acc', h => by
+    simp only [List.foldl_nil, Except.ok.injEq] at h
+    subst h
+    exact ⟨[], by simp, rfl⟩
+  | a :: rest, acc, acc', h => by
+    simp only [List.foldl_cons] at h
+    unfold planSpec
+    cases hv : validateAndMerge s a with
+    | error e =>
+      have hstep : planStep s st hashOf now (.ok acc) a = .error e := by unfold planStep; simp only [hv]
+      rw [hstep, foldl_planStep_error] at h; simp at h
+    | ok cfg =>
+      simp only []
+      cases hf : s.find a with
+      | none =>
+        have hstep : planStep s st hashOf now (.ok acc) a = .error "plan: unknown alias" := by unfold planStep; simp only [hv, hf]
+        rw [hstep, foldl_planStep_error] at h; simp at h
+      | some e =>
+        simp only []
+        by_cases hd : planDecision s st hashOf now acc.updated e cfg = true
+        · have hstep : planStep s st hashOf now (.ok acc) a =
+              .ok ⟨acc.changes ++ [⟨a, cfg, if e.art.cert.isSome then .replace else .create⟩], acc.updated ++ [cfg.alias_]⟩ := by
+            unfold planStep; simp only [hv, hf, hd, if_true]
+          rw [hstep] at h
+          simp only [hd, if_true]
+          obtain ⟨nc, h1, h2⟩ := foldl_planStep_spec s st hashOf now rest _ acc' h
+          refine ⟨⟨a, cfg, if e.art.cert.isSome then .replace else .create⟩ :: nc, ?_, ?_⟩
+          · rw [h1]; simp
+          · simp only at h2; rw [h2]; simp
+        · have hstep : planStep s st hashOf now (.ok acc) a = .ok acc := by
+            unfold planStep; simp only [hv, hf, hd, if_false, Bool.false_eq_true]
+          rw [hstep] at h
+          simp only [hd, if_false, Bool.false_eq_true]
+          exact foldl_planStep_spec s st hashOf now rest acc acc' h
+
+/-- **C11 (whole run)**: for hierarchies of any size, the aliases `PlanBulkUpdate` returns are exactly those the
+    statement's recursion selects, in the order of the breadth-first worklist (issuers first, `Forest.bfs_main`) -/
+theorem C11_plan_eq_spec (s : State) (st : Strategy) (hashOf : V1.CertificateContent → Der.Bytes) (now : Int) (changes : List Change)
+    (h : planBulkUpdate s st hashOf now = .ok changes) :
+    ∃ order, Forest.bfs s.ents (s.entities.length + 1) [] (Forest.roots s.ents) = some order ∧
+      planSpec s st hashOf now order [] = some (changes.map (·.alias_)) := by
+  unfold planBulkUpdate at h
+  split at h
+  · simp at h
+  · rename_i order ho
+    split at h
+    · simp at h
+    · rename_i acc hacc
+      simp only [Except.ok.injEq] at h
+      subst h
+      obtain ⟨nc, h1, h2⟩ := foldl_planStep_spec s st hashOf now order {} acc hacc
+      refine ⟨order, ho, ?_⟩
+      have : acc.changes = nc := by simpa using h1
+      rw [this]; exact h2
+
 /-- with every flag off nothing is ever regenerated -/
 theorem C11_no_flags_no_regen (s : State) (e : Entity) (cfg : V1.CertificateContent) (hash : Der.Bytes) (now : Int) :
     needsUpdate s (Strategy.ofBits 0) e cfg hash now = false := by
